@@ -28,6 +28,7 @@ var c09ValuePrograms = []string{
 	"&c = 1 + 1; &c", "&c = 2d6k1; &c", "&c = x; &c.a = 1; &c.b = [1]; &c", "&c = ''; &c", "[&c]", "&c = 1; {'k': &c}",
 	"ceil", "[ceil, toStr]", "{'f': dir}", "[1,2].sum", "{'m': [1].push}", "x = [1,2]; x.kh",
 	"x = [1]; x.push(x); x", "x = {}; x.k = x; x", "x = [1]; y = {'a': x}; x.push(y); x", "x = [1]; [x, x]", "x = {'a': 1}; {'p': x, 'q': x}",
+	"&c = 1 + 1; &c.x = &c; &c", "&c = 1; &c.a = [&c]; &c", "x = [1]; &c = 1; &c.a = x; x.push(&c); x", "&c = 1; &c.a = 1; [&c, &c]", "&c = 1; &c.a = [1]; {'p': &c, 'q': &c.a}", "x = {'a': 1}; y = {'__proto__': x}; [x, y, {'__proto__': x}]",
 	"x = 9999999999.0; x = x*x; x = x*x; x = x*x; x = x*x; x = x*x; x", "x = 9999999999.0; x = x*x; x = x*x; x = x*x; x = x*x; x = x*x; [x - x]", "x = 9999999999.0; x = x*x; x = x*x; x = x*x; x = x*x; x = x*x; {'a': -x}",
 	"[1..5]", "[[]] * 3", "x = [1,2,3]; x[1:]", "'x' + 'y'", "`t{1}{'s'}`", "2d1", "[2d1, f]",
 }
@@ -123,10 +124,16 @@ func c09Walk(v *ds.VMValue, onPath map[any]bool, seen map[any]int, f *c09Feature
 	case ds.VMTypeComputedValue:
 		cd, _ := v.ReadComputed()
 		if cd.Attrs != nil {
+			if onPath[cd.Attrs] {
+				f.cycle = true
+				return
+			}
+			onPath[cd.Attrs] = true
 			cd.Attrs.Range(func(k string, e *ds.VMValue) bool {
 				c09Walk(e, onPath, seen, f)
 				return true
 			})
+			delete(onPath, cd.Attrs)
 		}
 	case ds.VMTypeNativeFunction:
 		fd, _ := v.ReadNativeFunctionData()
